@@ -135,10 +135,13 @@ lemma gridInit_shape (a b : Rat × Rat) (gpts sampling : Val) (ep : List Bool) (
   have hrp : PosL [b.1 - a.1, b.2 - a.2] := by
     intro z hz; simp only [List.mem_cons, List.mem_nil_iff, or_false] at hz; rcases hz with rfl | rfl <;> assumption
   have hne : Val.seq [b.1 - a.1, b.2 - a.2] ≠ Val.none := by intro h; cases h
-  rcases hvg : validateGpts 2 gpts with e1' | go
-  · simp [Grid.init, hve, hvg] at hg
+  have hj : (validate 2 (Val.seq [b.1 - a.1, b.2 - a.2])).toOption.join = some [b.1 - a.1, b.2 - a.2] := by rw [hve]; rfl
+  unfold Grid.init at hg
+  rw [hj] at hg
+  rcases hvg : validateGpts 2 gpts (some [b.1 - a.1, b.2 - a.2]) with e1' | go
+  · simp [hve, hvg] at hg
   rcases hvs : validate 2 sampling with e1' | so
-  · simp [Grid.init, hve, hvg, hvs] at hg
+  · simp [hve, hvg, hvs] at hg
   rcases go with _ | nl <;> rcases so with _ | ds
   · -- neither gpts nor sampling: excluded
     have h1 := validateGpts_none hvg; have h2 := validate_none hvs
@@ -150,7 +153,7 @@ lemma gridInit_shape (a b : Rat × Rat) (gpts sampling : Val) (ep : List Bool) (
     obtain ⟨d0, d1, rfl⟩ := list_len2 ds hdl
     have hd0 : d0 ≠ 0 := ne_of_gt (hdp d0 (by simp))
     have hd1 : d1 ≠ 0 := ne_of_gt (hdp d1 (by simp))
-    simp only [Grid.init, hve, hvg, hvs] at hg
+    simp only [hve, hvg, hvs] at hg
     simp [hne, adjustGpts, hd0, hd1, adjustSampling, zipWith3, Res.bind] at hg
     subst hg
     refine ⟨adjustGptsElt (b.1 - a.1) d0 e0, adjustGptsElt (b.2 - a.2) d1 e1, e0, e1, rfl, ?_, ?_, rfl, rfl, rfl, rfl, rfl, rfl⟩
@@ -161,7 +164,7 @@ lemma gridInit_shape (a b : Rat × Rat) (gpts sampling : Val) (ep : List Bool) (
     subst h3
     obtain ⟨hnl0, hg'⟩ := validateGpts_good hvg hG
     obtain ⟨m0, m1, rfl⟩ := list_len2 nl hnl0
-    simp only [Grid.init, hve, hvg, hvs] at hg
+    simp only [hve, hvg, hvs] at hg
     simp [adjustSampling, zipWith3, Res.bind] at hg
     subst hg
     refine ⟨m0, m1, e0, e1, rfl, ?_, ?_, rfl, rfl, rfl, rfl, rfl, rfl⟩
@@ -170,7 +173,7 @@ lemma gridInit_shape (a b : Rat × Rat) (gpts sampling : Val) (ep : List Bool) (
   · -- both: the given sampling is overwritten
     obtain ⟨hnl0, hg'⟩ := validateGpts_good hvg hG
     obtain ⟨m0, m1, rfl⟩ := list_len2 nl hnl0
-    simp only [Grid.init, hve, hvg, hvs] at hg
+    simp only [hve, hvg, hvs] at hg
     simp [hne, adjustSampling, zipWith3, Res.bind] at hg
     subst hg
     refine ⟨m0, m1, e0, e1, rfl, ?_, ?_, rfl, rfl, rfl, rfl, rfl, rfl⟩
@@ -345,13 +348,39 @@ theorem customscan_spec (c : CustomScan) :
 
 /-! ### an observation about the setters (documented in design/C20.md) -/
 
-/-- recorded finding (findings/C20.json; outside the literal claims of C20 — every state reached is self-consistent): with `endpoint=True`, re-assigning the *same* end point
-drops one scan position, because `_adjust_gpts` recomputes `⌈extent / sampling⌉` from the reported sampling `extent/(gpts−1)` -/
-theorem linescan_reassigning_end_drops_a_position :
-    (lineInit (some (0, 0)) (some (3, 4)) 5 (some 10) none true).gpts = some 10 ∧
-    (lineSetStop (lineInit (some (0, 0)) (some (3, 4)) 5 (some 10) none true) (3, 4) 5).gpts = some 9 ∧
-    (lineSetStop (lineInit (some (0, 0)) (some (3, 4)) 5 (some 10) none false) (3, 4) 5).gpts = some 10 := by
-  refine ⟨by decide +kernel, by decide +kernel, by decide +kernel⟩
+/-- **Assigning `start` or `end` keeps the number of positions** (repaired in /repo e321e729: the setters re-derived gpts as
+`⌈extent / sampling⌉` from the reported sampling, which lost one position per assignment with endpoint and could gain one by
+rounding without) — for every scan with defined gpts, every new point and every norm. -/
+theorem linescan_setters_keep_gpts (l : LineScan) (n : Int) (p : Rat × Rat) (norm : Rat) (hn : l.gpts = some n) :
+    (lineSetStop l p norm).gpts = some n ∧ (lineSetStart l p norm).gpts = some n := by
+  constructor
+  · simp only [lineSetStop, lineReadjust, hn, Option.isSome_some, if_true, lineAdjustSampling]
+    split <;> simp [hn]
+  · simp only [lineSetStart, lineReadjust, hn, Option.isSome_some, if_true, lineAdjustSampling]
+    split <;> simp [hn]
+
+/-- known finding: a GridScan with one reversed axis (`end < start` on it) and a `sampling` is accepted by the constructor
+(only an extent that is non-positive on BOTH axes is rejected), its grid computes a negative number of positions
+(`⌈−2 / 0.5⌉ = −4`), and `get_positions()` raises ValueError; with `gpts=` the same scan works -/
+theorem gridscan_reversed_axis_with_sampling_counterexample :
+    ¬ (∀ (a b : Rat × Rat) (sampling : AbtemVerif.Grid.Val) (s : GridScan), gridInit (some a) (some b) AbtemVerif.Grid.Val.none sampling [false, false] = .ok s →
+        ∃ xs ys, gridPositions s = .ok (xs, ys)) := by
+  intro h
+  obtain ⟨xs, ys, hxy⟩ := h (0, 0) (-2, 1) (AbtemVerif.Grid.Val.scalar (1/2))
+    ⟨some (0, 0), some (-2, 1), ⟨2, [false, false], some [-2, 1], some [-4, 2], some [1/2, 1/2], false, false, false⟩⟩ (by decide +kernel)
+  revert hxy
+  simp [gridPositions, gridAxisPositions, AbtemVerif.Np.linspaceI, gridLinNum]
+
+/-- known finding, second form: when the reversed extent is shorter than the sampling the computed count is `⌈−0.5/1⌉ = 0` and the
+scan silently has no positions at all -/
+theorem gridscan_reversed_axis_empty_counterexample :
+    ¬ (∀ (a b : Rat × Rat) (sampling : AbtemVerif.Grid.Val) (s : GridScan) (xs ys : List Rat),
+        gridInit (some a) (some b) AbtemVerif.Grid.Val.none sampling [false, false] = .ok s →
+        gridPositions s = .ok (xs, ys) → xs ≠ []) := by
+  intro h
+  exact h (0, 0) (-1/2, 1) (AbtemVerif.Grid.Val.scalar 1)
+    ⟨some (0, 0), some (-1/2, 1), ⟨2, [false, false], some [-1/2, 1], some [0, 1], some [0, 1], false, false, false⟩⟩ [] [0]
+    (by decide +kernel) (by decide +kernel) rfl
 
 /-! ### probe position = periodic shift (1-D DFT, whole-pixel shifts) -/
 
